@@ -14,6 +14,7 @@ PROPS = {
                      "save/stack_push/stack_pop change only the current values and no frame; backtrack_cut keeps current values and frames.take(count)."),
         residual="The atomic / look-around arms of run are proved to use these operations as the spec machine says (U-RUN refinement), under flow assumptions A1 / A2 (listed in U-RUN).",
         assumptions=[T_VSTD, T_ARITH, T_EXTRACT, "T-swap: <[T]>::swap swaps two in-bounds elements", "T-veclen: a Vec's length is <= usize::MAX (<= isize::MAX for Vec<usize>)"],
+        bounded_families=['refsem'],
     ),
     'C08': dict(
         bounded_families=['iter'],
@@ -56,7 +57,7 @@ PROPS = {
                      "T-RA: regex-automata Captures accessors (ARMSUB shims)"],
     ),
     'C13': dict(
-        bounded_families=['analyze'],
+        bounded_families=['analyze', 'refsem'],
         kani=True,
         level='proof',
         explanation=("Analyzer::visit is verified by Verus, for EVERY expression tree (structural induction carried by the real recursive function), against the spec match-length relation len_of: "
@@ -94,7 +95,7 @@ PROPS = {
     'C05': dict(
         kani=True,
         level='proof',
-        bounded_families=['search', 'iter'],
+        bounded_families=['search', 'iter', 'refsem'],
         explanation=("vm::run is verified by Verus for every well-formed program, every text and every start offset on a char boundary: every index, slice (&s[lo..hi] in Backref included), "
                      "unwrap, subtraction and addition in all 21 instruction arms is in bounds / on a character boundary / overflow-free; the reported overall span satisfies start <= end <= len with both ends on boundaries; "
                      "the only errors are StackOverflow and BacktrackLimitExceeded. The UTF-8 stepping helpers, Match::as_str, Captures::get (no index overflow), Split::next / SplitN::next slicing are verified in their units."),
